@@ -99,3 +99,22 @@ func VerifAfterWake() {
 
 // VerifSetAfterWake installs the hook.
 func VerifSetAfterWake(f func()) { verifAfterWakeFn = f }
+
+// VerifChanReady reports whether a send (send=true) or receive on channel ch would proceed without
+// blocking right now. ch must be a channel value (any element type, any direction).
+func VerifChanReady(ch any, send bool) bool {
+	e := efaceOf(&ch)
+	c := (*hchan)(e.data)
+	if c == nil {
+		return false
+	}
+	lock(&c.lock)
+	var r bool
+	if send {
+		r = c.closed != 0 || c.recvq.first != nil || c.qcount < c.dataqsiz
+	} else {
+		r = c.closed != 0 || c.sendq.first != nil || c.qcount > 0
+	}
+	unlock(&c.lock)
+	return r
+}
